@@ -6,7 +6,9 @@ CHECK = {
     "rule": "one case = one HTTP request written byte-for-byte to a fresh default-configured proxy: 42% hijacked endpoints (pin add/rm/ls in both "
             "argument styles, pin update with 0-3 args, add with multipart bodies and ~25 options, repo stat/gc; valid and invalid paths/CIDs in "
             "several spellings and escapings; scripted RPC failures), 36% arbitrary other requests (7+5 methods, random segments around the API "
-            "vocabulary, raw queries, binary bodies), 14% near misses of the hijacked endpoints, 8% malformed targets/queries; "
+            "vocabulary, raw queries, binary bodies), 14% near misses of the hijacked endpoints, 8% malformed targets/queries; about 1 case in 150 (and 11 "
+            "corpus lines) is run against a proxy configured with small timeouts (read_header_timeout 200-300 ms, idle_timeout 50 ms-60 s) and a daemon "
+            "that starts answering later than every one of them and/or pauses in the middle of its body (tokens cf= dl=); "
             "non-trivial = the request target decodes (the property constrains it); distinct by case line",
     "trusted_base": ["recording fake IPFS daemon (net/http server recording RequestURI, headers, body) and recording fake Cluster/IPFSConnector/Consensus "
                      "gorpc services with scripted answers and failures",
@@ -14,8 +16,13 @@ CHECK = {
                      "net/http MultipartReader, go-ipfs-files/go-ipfs-chunker/go-merkledag/go-multihash acceptance of the add body and options",
                      "gorilla/mux regexp matching, net/http request parsing and httputil.ReverseProxy are modelled (segment matching, url.unescape/"
                      "EscapedPath/ParseQuery) and tied by the correspondence run only",
-                     "translator harness/extract_c12 (go/ast over ipfsproxy.go)"],
-    "assumptions": ["default proxy configuration (ExtractHeadersPath=/api/v0/version, no tracing), one fresh proxy per request",
+                     "translator harness/extract_c12 (go/ast over ipfsproxy.go: hijack table; relay set-up of New = transport of the reverse proxy "
+                     "resolved through one local / one constructor function / a clone of the default transport, its fields as duration sources, "
+                     "http.Server fields, handler chain)",
+                     "net/http semantics of the transport fields: only ResponseHeaderTimeout (non-zero) bounds the wait for an accepted request; "
+                     "http.DefaultTransport sets none"],
+    "assumptions": ["default proxy configuration (ExtractHeadersPath=/api/v0/version, no tracing) except read_header_timeout/idle_timeout in the slow-daemon "
+                    "cases; read_timeout = write_timeout = 0 (their defaults); one fresh proxy per request",
                     "request targets are origin-form; CONNECT, OPTIONS * and absolute-form targets are not generated",
                     "add options expire-at/expire-in/pin-update/origins and shard=true are outside the model (sharded adding is C13's)",
                     "boolean options are constrained by the Spec only in their documented spellings true/false"],
@@ -26,9 +33,14 @@ META = {
             "definition of a hijacked request, that every non-hijacked request with a clean path is relayed with identical method, path, query, headers "
             "and body and answered with the daemon's response, that a hijacked request is never forwarded as the call it replaces, and that every handler "
             "model meets every clause of the property except in three corners that the unchanged code really has (recorded as known findings with "
-            "witnesses proved in Lean). The model is tied to the code by sending thousands of seeded raw HTTP requests through the real proxy between a "
+            "witnesses proved in Lean). The relay set-up of New (which round tripper the reverse proxy gets, which of its fields are set from which "
+            "configuration field or constant, the client-facing server's timeouts and handler chain) is translated semantically and INTERPRETED by "
+            "the model: it is proved that today's set-up puts no bound on the daemon's time to first byte under any configuration, hence a relayed call "
+            "is answered with the daemon's answer however slow the daemon is, and that the alternative 'ResponseHeaderTimeout = read_header_timeout' "
+            "breaks the relay clause on every slow call (refutation for all inputs). The model is tied to the code by sending thousands of seeded raw HTTP requests through the real proxy between a "
             "recording daemon and recording cluster RPC services, comparing with the model and evaluating the Lean property clauses on the real observations.",
     "note": "Trusted: Lean kernel, hand-written model/spec, harness fakes and dependency oracles (go-path, go-cid, multipart/DAG-builder acceptance), "
             "translator. net/http, httputil.ReverseProxy and gorilla/mux are modelled, not verified.",
-    "technique": "Lean 4 theorems over a request-routing/handler model + generated route table (decide) + differential correspondence per HTTP request",
+    "technique": "Lean 4 theorems over a request-routing/handler model + generated route table and relay set-up (decide, interpreted by the model) + "
+                 "differential correspondence per HTTP request incl. slow-daemon cases",
 }
